@@ -742,6 +742,13 @@ func goString(a interface{}) string {
 	for rv.Kind() == reflect.Ptr && !rv.IsNil() {
 		rv, prefix = rv.Elem(), prefix+"&"
 	}
+	if rv.Kind() == reflect.Slice || rv.Kind() == reflect.Array {
+		parts := make([]string, rv.Len())
+		for i := range parts {
+			parts[i] = goString(rv.Index(i).Interface())
+		}
+		return prefix + rv.Type().String() + "{" + strings.Join(parts, ",") + "}"
+	}
 	if rv.Kind() == reflect.Struct && rv.Type().Name() == "" {
 		parts := make([]string, rv.NumField())
 		for i := range parts {
